@@ -755,3 +755,273 @@ Proof.
   specialize (F1 (max f1 f2) ltac:(lia)). specialize (F2 (max f1 f2) ltac:(lia)).
   rewrite E in F1. rewrite F1 in F2. inversion F2. reflexivity.
 Qed.
+
+(* ================= print commands ================= *)
+Section PrintCmd.
+Variable sty : list nat -> nat.
+
+Definition dir_arg_toks (path : list nat) (i : nat) (c : node) : list tok :=
+  (if Nat.eqb i 0 then T_colon else T_comma) :: parens (sty (i :: path)) (show sty (i :: path) c).
+
+Lemma dargs_chain path t rest :
+  ((t_typ t =? pk_itemColon) || (t_typ t =? pk_itemComma)) = false -> closer t = true ->
+  forall cs done i, allP wf_expr cs ->
+  DArgs done (List.concat (mapi_from (dir_arg_toks path) i cs) ++ t :: rest) (done ++ cs) (t :: rest).
+Proof.
+  intros Ht Hc. induction cs as [|c cs IH]; intros done i Hw.
+  - cbn [mapi_from List.concat app]. rewrite app_nil_r. apply DArgs_stop, Ht.
+  - destruct Hw as [Hwc Hw]. rewrite mapi_from_cons. cbn [List.concat]. unfold dir_arg_toks at 1. cbn [app].
+    rewrite <- app_assoc. specialize (IH (done ++ [c]) (S i) Hw). rewrite <- app_assoc in IH. cbn [app] in IH.
+    destruct cs as [|c' cs'].
+    + cbn [mapi_from List.concat app] in *.
+      eapply DArgs_more with (e := c); [destruct (Nat.eqb i 0); reflexivity | | exact IH].
+      apply child_closed; [apply Good_all | exact Hwc | exact Hc].
+    + rewrite mapi_from_cons in *. cbn [List.concat] in *. unfold dir_arg_toks at 1. unfold dir_arg_toks at 1 in IH.
+      cbn [Nat.eqb app] in *. rewrite <- app_assoc in *.
+      eapply DArgs_more with (e := c); [destruct (Nat.eqb i 0); reflexivity | | exact IH].
+      apply child_closed; [apply Good_all | exact Hwc | reflexivity].
+Qed.
+
+Lemma show_directive_shape path d : wf_directive d ->
+  exists p name args, d = NDirective p name args /\ allP wf_expr args /\
+    show_directive sty path d = tk pk_itemPipe p [124] :: tk pk_itemIdent 0 name :: List.concat (mapi_from (dir_arg_toks path) 0 args).
+Proof. destruct d; cbn [wf_directive]; try contradiction. intros Hw. do 3 eexists. split; [reflexivity|]. split; [exact Hw | reflexivity]. Qed.
+
+Lemma ploop_chain p e path rest : forall ds done i, allP wf_directive ds ->
+  PLoop p e done (List.concat (mapi_from (fun i d => show_directive sty (S i :: path) d) i ds) ++ T_rdelim :: rest)
+        (NPrint p e (done ++ ds)) rest.
+Proof.
+  induction ds as [|d ds IH]; intros done i Hw.
+  - cbn [mapi_from List.concat app]. rewrite app_nil_r. apply PLoop_end. reflexivity.
+  - destruct Hw as [Hwd Hw]. rewrite mapi_from_cons. cbn [List.concat].
+    destruct (show_directive_shape (S i :: path) d Hwd) as (pd & name & args & -> & Hwa & ->).
+    specialize (IH (done ++ [NDirective pd name args]) (S i) Hw). rewrite <- app_assoc in IH. cbn [app] in IH.
+    cbn [app]. rewrite <- app_assoc.
+    destruct ds as [|d' ds'].
+    + cbn [mapi_from List.concat app] in *.
+      eapply PLoop_dir with (args := args); [reflexivity | reflexivity | reflexivity | | exact IH].
+      exact (dargs_chain (S i :: path) T_rdelim rest eq_refl eq_refl args [] 0%nat Hwa).
+    + destruct Hw as [Hwd' Hw']. rewrite mapi_from_cons in *. cbn [List.concat] in *.
+      destruct (show_directive_shape (S (S i) :: path) d' Hwd') as (pd' & name' & args' & -> & Hwa' & E').
+      rewrite E' in *. cbn [app] in *.
+      eapply PLoop_dir with (args := args); [reflexivity | reflexivity | reflexivity | | exact IH].
+      exact (dargs_chain (S i :: path) (tk pk_itemPipe pd' [124]) _ eq_refl eq_refl args [] 0%nat Hwa).
+Qed.
+
+(* C17 for print commands: after "{" (or "{print"), the tokens of a print command -- its
+   expression, its directives with their arguments, the closing brace -- parse back to it *)
+Theorem parse_show_print path p arg dirs rest :
+  wf_print (NPrint p arg dirs) ->
+  ParsesPrint p (show_print sty path (NPrint p arg dirs) ++ rest) (NPrint p arg dirs) rest.
+Proof.
+  intros [Hwa Hwd]. cbn [show_print]. rewrite <- !app_assoc. cbn [app].
+  pose proof (ploop_chain p arg path rest dirs [] 0%nat Hwd) as HP. cbn [app] in HP.
+  eapply ParsesPrint_intro; [|exact HP].
+  destruct dirs as [|d ds].
+  - cbn [mapi_from List.concat app]. apply child_closed; [apply Good_all | exact Hwa | reflexivity].
+  - destruct Hwd as [Hd _]. rewrite mapi_from_cons. cbn [List.concat].
+    destruct (show_directive_shape (1%nat :: path) d Hd) as (pd & name & args & -> & _ & ->).
+    cbn [app]. apply child_closed; [apply Good_all | exact Hwa | reflexivity].
+Qed.
+End PrintCmd.
+
+Theorem parse_print_roundtrip_cmd p arg dirs rest :
+  wf_print (NPrint p arg dirs) ->
+  exists st' f0, stream st' = rest /\
+    forall f, (f0 <= f)%nat ->
+      parse_print f p (pst_init (tokens_of_print (NPrint p arg dirs) ++ rest)) = POk (NPrint p arg dirs) st'.
+Proof.
+  intros Hwf. destruct (stream_init (tokens_of_print (NPrint p arg dirs) ++ rest)) as [Hs Hi].
+  destruct (parse_show_print sty_min [] p arg dirs rest Hwf _ Hs Hi) as (st' & Hs' & _ & f0 & Hf).
+  exists st', f0. split; [exact Hs'|]. intros f Hle. apply (Hf f f); exact Hle.
+Qed.
+
+(* ================= equality up to positions ================= *)
+Lemma size_induction (P : node -> Prop) :
+  (forall e, (forall c, (size c < size e)%nat -> P c) -> P e) -> forall e, P e.
+Proof.
+  intros H e. assert (G : forall n c, (size c < n)%nat -> P c).
+  { induction n as [|n IH]; intros c Hc; [lia|]. apply H. intros d Hd. apply IH. lia. }
+  apply (G (S (size e))). lia.
+Qed.
+
+Lemma map_parens k ts : map strip_tok (parens k ts) = parens k (map strip_tok ts).
+Proof. induction k as [|k IH]; [reflexivity|]. cbn [parens map]. rewrite map_app, IH. reflexivity. Qed.
+
+Lemma map_sep_join ls : map strip_tok (sep_join [T_comma] ls) = sep_join [T_comma] (map (map strip_tok) ls).
+Proof.
+  induction ls as [|x ls IH]; [reflexivity|]. destruct ls as [|y ls]; [reflexivity|].
+  rewrite sep_join_cons2, !map_app, IH. reflexivity.
+Qed.
+
+Lemma mapi_from_map {A B C} (f : nat -> B -> C) (g : A -> B) l : forall i,
+  mapi_from f i (map g l) = mapi_from (fun i x => f i (g x)) i l.
+Proof. induction l as [|x l IH]; intros i; [reflexivity|]. cbn [map]. rewrite !mapi_from_cons, IH. reflexivity. Qed.
+
+Lemma map_mapi_from {A B C} (h : B -> C) (f : nat -> A -> B) l : forall i,
+  map h (mapi_from f i l) = mapi_from (fun i x => h (f i x)) i l.
+Proof. induction l as [|x l IH]; intros i; [reflexivity|]. rewrite !mapi_from_cons. cbn [map]. rewrite IH. reflexivity. Qed.
+
+Lemma mapi_from_ext_in {A B} (f g : nat -> A -> B) l : (forall i x, In x l -> f i x = g i x) -> forall i,
+  mapi_from f i l = mapi_from g i l.
+Proof.
+  induction l as [|x l IH]; intros H i; [reflexivity|]. rewrite !mapi_from_cons. f_equal.
+  - apply H. left. reflexivity.
+  - apply IH. intros j y Hy. apply H. right. exact Hy.
+Qed.
+
+Lemma expr_level_strip e : expr_level (strip_pos e) = expr_level e.
+Proof. destruct e; reflexivity. Qed.
+Lemma neg_literal_strip e : neg_literal (strip_pos e) = neg_literal e.
+Proof. destruct e; reflexivity. Qed.
+
+Lemma size_in_list (c : node) l : In c l -> (size c <= list_sum (map size l))%nat.
+Proof. apply list_sum_In. Qed.
+
+(* the printer does not look at positions *)
+Lemma show_strip sty : forall e path, show sty path (strip_pos e) = map strip_tok (show sty path e).
+Proof.
+  induction e as [e IH] using size_induction. intros path.
+  destruct e; try reflexivity; cbn [strip_pos show].
+  - (* global *) unfold global_toks. destruct (split_dots [] name) as [|f r]; [reflexivity|].
+    cbn [map]. f_equal. rewrite map_map. reflexivity.
+  - (* function *) cbn [map]. do 2 f_equal. rewrite map_app, map_sep_join, mapi_from_map, map_mapi_from. cbn [map]. do 2 f_equal.
+    apply mapi_from_ext_in. intros i c Hc. rewrite map_parens. f_equal. apply IH.
+    cbn [size]. pose proof (size_in_list c args Hc). lia.
+  - (* list *) cbn [map]. f_equal. rewrite map_app, map_sep_join, mapi_from_map, map_mapi_from. cbn [map]. do 2 f_equal.
+    apply mapi_from_ext_in. intros i c Hc. rewrite map_parens. f_equal. apply IH.
+    cbn [size]. pose proof (size_in_list c items Hc). lia.
+  - (* map *) destruct items as [|kv items]; [reflexivity|]. cbn [map]. f_equal.
+    change ((fst kv, strip_pos (snd kv)) :: map (fun kv0 => (fst kv0, strip_pos (snd kv0))) items)
+      with (map (fun kv0 => (fst kv0, strip_pos (snd kv0))) (kv :: items)).
+    rewrite map_app, map_sep_join, mapi_from_map, map_mapi_from. cbn [map]. do 2 f_equal.
+    apply mapi_from_ext_in. intros i c Hc. cbn [fst snd map]. do 2 f_equal. rewrite map_parens. f_equal. apply IH.
+    cbn [size]. pose proof (list_sum_In (fun kv => size (snd kv)) c _ Hc). lia.
+  - (* data reference *) cbn [map]. f_equal. rewrite concat_map, mapi_from_map, map_mapi_from. f_equal.
+    apply mapi_from_ext_in. intros i c Hc. apply IH. cbn [size]. pose proof (size_in_list c access Hc). lia.
+  - (* [e] *) cbn [map]. rewrite map_app, map_parens, IH by (cbn [size]; lia). destruct nullsafe; reflexivity.
+  - (* not *) cbn [map]. rewrite map_parens, IH, expr_level_strip by (cbn [size]; lia). reflexivity.
+  - (* negate *) cbn [map]. rewrite map_parens, IH, expr_level_strip, neg_literal_strip by (cbn [size]; lia). reflexivity.
+  - (* binary *) rewrite !map_app. cbn [map]. rewrite !map_parens, !IH, !expr_level_strip by (cbn [size]; lia). reflexivity.
+  - (* ternary *) rewrite !map_app. cbn [map]. rewrite !map_app. cbn [map].
+    rewrite !map_parens, !IH, !expr_level_strip by (cbn [size]; lia). reflexivity.
+Qed.
+
+Lemma pos_of_strip e : wf_expr e -> pos_of (strip_pos e) = 0.
+Proof. destruct e; cbn [wf_expr]; try contradiction; reflexivity. Qed.
+
+Lemma allP_map_in {A} (P Q : A -> Prop) (g : A -> A) l :
+  (forall x, In x l -> P x -> Q (g x)) -> allP P l -> allP Q (map g l).
+Proof.
+  induction l as [|x l IH]; intros H Hl; [exact I|]. destruct Hl as [Hx Hl]. split.
+  - apply H; [left; reflexivity | exact Hx].
+  - apply IH; [intros y Hy; apply H; right; exact Hy | exact Hl].
+Qed.
+
+Lemma wf_strip : forall e, wf_expr e -> wf_expr (strip_pos e).
+Proof.
+  induction e as [e IH] using size_induction. intros Hwf.
+  destruct e; cbn [wf_expr] in Hwf; try contradiction; cbn [strip_pos wf_expr]; auto.
+  - eapply allP_map_in; [|exact Hwf]. intros c Hc Hw. apply IH; [|exact Hw]. cbn [size]. pose proof (size_in_list c args Hc). lia.
+  - eapply allP_map_in; [|exact Hwf]. intros c Hc Hw. apply IH; [|exact Hw]. cbn [size]. pose proof (size_in_list c items Hc). lia.
+  - destruct Hwf as [Hw Hs]. split.
+    + eapply allP_map_in; [|exact Hw]. intros kv Hkv [Hk Hv]. cbn [fst snd]. split; [exact Hk|]. apply IH; [|exact Hv].
+      cbn [size]. pose proof (list_sum_In (fun kv => size (snd kv)) kv _ Hkv). lia.
+    + rewrite map_map. cbn [fst]. exact Hs.
+  - eapply allP_map_in; [|exact Hwf]. intros a Ha Hw. pose proof (size_in_list a access Ha) as Hsz.
+    destruct a; try contradiction; cbn [strip_pos]; auto. apply IH; [cbn [size] in *; lia | exact Hw].
+  - destruct Hwf as [H1 H2]. split; apply IH; auto; cbn [size]; lia.
+  - destruct Hwf as (Hp & H1 & H2 & H3). split; [symmetry; apply pos_of_strip, H1|].
+    repeat split; apply IH; auto; cbn [size]; lia.
+Qed.
+
+(* C17: two well-formed expressions whose printed token sequences agree up to positions are
+   the same expression up to positions *)
+Theorem print_injective e1 e2 :
+  wf_expr e1 -> wf_expr e2 ->
+  map strip_tok (tokens_of e1) = map strip_tok (tokens_of e2) -> strip_pos e1 = strip_pos e2.
+Proof.
+  intros H1 H2 E. apply tokens_of_injective; [apply wf_strip, H1 | apply wf_strip, H2 |].
+  unfold tokens_of. rewrite !show_strip. exact E.
+Qed.
+
+(* ================= the printer's tables are the Soy operator table ================= *)
+(* finite checks on the tables regenerated from ast/node.go (binaryPrecedence, precTernary,
+   precUnary, precPrimary): Model/AstPrint.v parenthesises by exactly the levels of the Spec *)
+Lemma ast_levels_are_soy_levels : forall op, binop_level op = op_level op.
+Proof. destruct op; reflexivity. Qed.
+
+Lemma ast_level_of_is_expr_level : forall e, level_of e = expr_level e.
+Proof. destruct e; try reflexivity. apply ast_levels_are_soy_levels. Qed.
+
+(* every escape the printer writes for a map key is one the parser's unquoteString undoes *)
+Lemma ast_escapes_are_unescapes :
+  forallb (fun e => match snd e with
+                    | [bs; x] => (bs =? 92) && negb (x =? 117) && (fst e <? 128) &&
+                                 match unescape_of x with Some c => c =? fst e | None => false end
+                    | _ => false
+                    end) ast_string_escapes = true.
+Proof. reflexivity. Qed.
+
+(* the operator text that newBinaryOpNode stores is what the scanner reads as that operator:
+   each is a key of the parser's table (finite check, used by the harness's token tie) *)
+Lemma binop_names_distinct : forall o1 o2, binop_name o1 = binop_name o2 -> o1 = o2.
+Proof. destruct o1, o2; intros H; try reflexivity; discriminate H. Qed.
+
+(* the map-key side condition of wf_expr holds for every valid UTF-8 key (Proofs/LiteralProofs.v) *)
+Theorem key_ok_valid_utf8 k : Utf8.utf8_valid k = true -> key_ok k.
+Proof. apply key_roundtrip. Qed.
+
+(* the float side condition of wf_expr is decidable: a checker, sound by construction *)
+Definition fl_same (x y : fl) : bool :=
+  match x, y with
+  | FNaN, FNaN => true
+  | FInf a, FInf c | FZero a, FZero c => Bool.eqb a c
+  | FFin m e, FFin m' e' => (m =? m')%Z && (e =? e')%Z
+  | _, _ => false
+  end.
+
+Lemma fl_same_eq x y : fl_same x y = true -> x = y.
+Proof.
+  destruct x, y; cbn [fl_same]; try discriminate; try reflexivity.
+  - intros H. apply Bool.eqb_prop in H. congruence.
+  - intros H. apply Bool.eqb_prop in H. congruence.
+  - intros H. apply andb_true_iff in H. destruct H as [H1 H2]. f_equal; lia.
+Qed.
+
+Definition float_okb (f : fl) : bool :=
+  match fl_print f with
+  | Some s => match parse_float s with Some g => fl_same g f | None => false end
+  | None => false
+  end.
+
+Lemma float_okb_sound f : float_okb f = true -> float_ok f.
+Proof.
+  unfold float_okb, float_ok. destruct (fl_print f) as [s|]; [|discriminate].
+  destruct (parse_float s) as [g|] eqn:E; [|discriminate]. intros H. apply fl_same_eq in H. subst g.
+  exists s. split; [reflexivity | exact E].
+Qed.
+
+(* C01 (implicit print): the first item of a printed expression, under any style, is one of
+   the item types with which beginTag starts an implicit print command (values, unary
+   operators, "[" and "("); the command-level parser ties [expr_start_types] to the case list
+   of parse.go's beginTag. *)
+Definition expr_start_types : list N :=
+  [pk_itemIdent; pk_itemDollarIdent; pk_itemNull; pk_itemBool; pk_itemFloat; pk_itemInteger; pk_itemString;
+   pk_itemNegate; pk_itemNot; pk_itemLeftBracket; pk_itemLeftParen].
+
+Theorem show_starts_expression sty e : wf_expr e -> forall path kk,
+  exists x l, parens kk (show sty path e) = x :: l /\ mem (t_typ x) expr_start_types = true.
+Proof.
+  assert (HP : forall ts k, (exists x l, ts = x :: l /\ mem (t_typ x) expr_start_types = true) ->
+                            exists x l, parens k ts = x :: l /\ mem (t_typ x) expr_start_types = true).
+  { intros ts [|k] H; [exact H|]. rewrite parens_S. do 2 eexists. split; reflexivity. }
+  induction e; intros Hwf path kk; cbn [wf_expr] in Hwf; try contradiction; apply HP; cbn [show];
+    try (do 2 eexists; split; reflexivity).
+  - unfold global_toks. destruct (split_dots_shape name []) as (f & r & E). rewrite E. do 2 eexists; split; reflexivity.
+  - destruct items; do 2 eexists; split; reflexivity.
+  - destruct Hwf as [H1 _]. destruct (IHe1 H1 (0%nat :: path) (kL sty path op e1)) as (x & l & E & Hx).
+    unfold kL in E. rewrite E. do 2 eexists; split; [reflexivity | exact Hx].
+  - destruct Hwf as (_ & H1 & _). destruct (IHe1 H1 (0%nat :: path) (kC sty path e1)) as (x & l & E & Hx).
+    unfold kC in E. rewrite E. do 2 eexists; split; [reflexivity | exact Hx].
+Qed.
